@@ -144,7 +144,7 @@ static int main_loop() {
         std::cout.flush();
         pid_t pid = fork();
         if (pid == 0) {
-            close(fds[0]); g_fd = fds[1];
+            close(fds[0]); g_fd = fds[1]; alarm(10);
             std::string r = it->second(c);
             if (write(g_fd, r.data(), r.size()) < 0) {}
             _exit(0);
